@@ -48,8 +48,8 @@ def min_nontrivial(tier):
 def ge3(count, n, bound):
     """3-valued count/n >= bound"""
     fl = count / n >= bound
-    ex = Fraction(int(count), int(n)) >= Fraction(bound)
-    if fl != ex or abs(count / n - bound) <= 1e-12:
+    ex = Fraction(int(count), int(n)) >= Fraction(repr(float(bound)))  # the decimal value the user wrote
+    if fl != ex:
         return None
     return fl
 
